@@ -569,6 +569,107 @@ namespace
       for (auto &t : list->GetArray()) do_query_one(s, t);
     }
 
+    // compact form of many queries with the same request: rows = [x, y, z, depth, cells...]; each check
+    // names the output index it looks at and the row cell holding the expected value
+    void do_qtable(const Value &s)
+    {
+      Handle &H = handle(s["h"].GetInt());
+      if (!H.alive || !H.world()) { ++stats.skipped_steps; return; }
+      World &w = *H.world();
+      const auto props = get_props(s["props"]);
+      const int dim = s.HasMember("dim") ? s["dim"].GetInt() : 3;
+      const int off = dim == 3 ? 4 : 3;
+      const bool sph_rows = s.HasMember("sph") && s["sph"].IsBool() && s["sph"].GetBool();
+      // "let": [[name, term], ...] evaluated once, in order; "rowlet": the same per row, after the row's
+      // cells have been bound to $0, $1, ...; a rowlet value is appended to the row as a further cell
+      env().clear();
+      if (s.HasMember("let"))
+        for (auto &b : s["let"].GetArray()) env()[b[0].GetString()] = eval(b[1]);
+      for (auto &row : s["rows"].GetArray())
+        {
+          std::vector<double> c;
+          for (auto &cell : row.GetArray()) c.push_back(cell.IsNull() ? std::nan("") : eval(cell));
+          if (s.HasMember("rowlet"))
+            {
+              for (size_t i = 0; i < c.size(); ++i) env()["$" + std::to_string(i)] = c[i];
+              for (auto &b : s["rowlet"].GetArray())
+                {
+                  const double v = eval(b[1]);
+                  env()[b[0].GetString()] = v;
+                  c.push_back(v);
+                }
+            }
+          if (sph_rows)
+            {
+              const double r = c[0], lon = c[1] * (PI / 180.), lat = c[2] * (PI / 180.);
+              c[0] = r * std::cos(lat) * std::cos(lon); c[1] = r * std::cos(lat) * std::sin(lon); c[2] = r * std::sin(lat);
+            }
+          std::vector<double> out;
+          ++stats.queries;
+          try
+            {
+              out = dim == 3 ? w.properties(std::array<double,3> {{c[0], c[1], c[2]}}, c[3], props)
+                    : w.properties(std::array<double,2> {{c[0], c[1]}}, c[2], props);
+            }
+          catch (const std::exception &e)
+            {
+              ++stats.threw_query;
+              mismatch("query", std::string("query threw: ") + e.what());
+              continue;
+            }
+          (void) off;
+          for (auto &e : s["checks"].GetArray())
+            {
+              const std::string k = e["k"].GetString();
+              const long at = e["at"].GetInt64();
+              const double cell = c[e["col"].GetUint()];
+              if (std::isnan(cell)) continue;          // null cell: nothing asserted for this row
+              ++stats.checks; ++stats.by_check[k]; ++stats.values;
+              double want = cell;
+              if (k == "tagname")
+                {
+                  const Value &nm = e["names"][static_cast<rapidjson::SizeType>(cell)];
+                  want = -1;
+                  if (nm.IsString())
+                    {
+                      want = -2;
+                      for (size_t i = 0; i < w.feature_tags.size(); ++i)
+                        if (w.feature_tags[i] == nm.GetString()) want = static_cast<double>(i);
+                    }
+                }
+              bool ok;
+              if (k == "member")
+                {
+                  // cell = value of the membership function F (inside iff F <= 1); nothing is asserted
+                  // within `margin` of the boundary
+                  const double margin = e.HasMember("margin") ? eval(e["margin"]) : 1e-6;
+                  if (std::fabs(cell - 1.) <= margin) { ++stats.by_check["member-skipped-near-boundary"]; continue; }
+                  const bool inside = cell < 1.;
+                  if (e.HasMember("tagname"))
+                    {
+                      want = -1;
+                      if (inside)
+                        for (size_t i = 0; i < w.feature_tags.size(); ++i)
+                          if (w.feature_tags[i] == e["tagname"].GetString()) want = static_cast<double>(i);
+                    }
+                  else
+                    want = inside ? eval(e["inside"]) : eval(e["outside"]);
+                  ok = at < static_cast<long>(out.size()) && out[at] == want;
+                }
+              else if (k == "tol")
+                {
+                  const double rel = e.HasMember("rel") ? eval(e["rel"]) : 0., abs_ = e.HasMember("abs") ? eval(e["abs"]) : 0.;
+                  ok = at < static_cast<long>(out.size()) && std::fabs(out[at] - want) <= abs_ + rel *std::max(std::fabs(out[at]), std::fabs(want));
+                }
+              else
+                ok = at < static_cast<long>(out.size()) && out[at] == want;
+              if (!ok)
+                mismatch(k, "row [" + fmt(c[0]) + "," + fmt(c[1]) + "," + fmt(c[2]) + "," + fmt(c[3]) + "]: value differs from the specification's",
+                         at, at < static_cast<long>(out.size()) ? fmt(out[at]) : "missing", fmt(want));
+            }
+        }
+    }
+
     void do_size(const Value &s)
     {
       Handle &H = handle(s["h"].GetInt());
@@ -651,6 +752,7 @@ namespace
             }
           else if (cur_op == "release") do_release(s);
           else if (cur_op == "q") do_query(s);
+          else if (cur_op == "qtable") do_qtable(s);
           else if (cur_op == "size") do_size(s);
           else if (cur_op == "dist") do_dist(s);
           else if (cur_op == "engine") do_engine(s);
